@@ -43,9 +43,23 @@ var errSentinel = errors.New("sentinel failure")
 
 const sentinelID = math.MinInt + 1
 
+// multiErr is one error value that wraps several others (errors.Join style:
+// Unwrap() []error); kind 4 carries two parts, kind 5 none at all. It is one
+// error of one failing element, whatever it wraps.
+type multiErr struct {
+	id    int
+	parts []error
+}
+
+func (e multiErr) Error() string   { return fmt.Sprintf("err#%d(+%d)", e.id, len(e.parts)) }
+func (e multiErr) Unwrap() []error { return e.parts }
+
 func errID(err error) int {
 	if ee, ok := err.(elemErr); ok {
 		return ee.id
+	}
+	if me, ok := err.(multiErr); ok {
+		return me.id
 	}
 	if err == errSentinel {
 		return sentinelID
@@ -57,6 +71,12 @@ func errID(err error) int {
 func failure(p *driver.Plan, id int) error {
 	if p.X("err_kind") == 3 {
 		return errSentinel
+	}
+	switch p.X("err_kind") {
+	case 4:
+		return multiErr{id, []error{errors.New("first cause"), fmt.Errorf("second cause: %w", context.Canceled)}}
+	case 5:
+		return multiErr{id, nil}
 	}
 	return elemErr{id, p.X("err_kind")}
 }
@@ -74,12 +94,24 @@ func mapImg(fn, x int) int {
 }
 
 func fmapImg(fn, x int) []int {
-	switch fn % 4 {
+	switch fn % 5 {
 	case 0:
 		return []int{x, -x}
 	case 1:
 		return nil
 	case 2:
+		return []int{x}
+	case 4:
+		// long images (beyond any fixed internal buffer) for two elements of
+		// an input, short ones for the rest
+		if k := x % stride; k == 3 || k == 4 {
+			size := []int{65, 300, 130}[(k+fn/5)%3]
+			out := make([]int, size)
+			for i := range out {
+				out[i] = x*7 + i
+			}
+			return out
+		}
 		return []int{x}
 	}
 	n := x % 3
@@ -108,11 +140,17 @@ func pred(fn, arg, x int) bool {
 }
 
 func unfoldF(fn, x int) int {
-	switch fn % 3 {
+	switch fn % 6 {
 	case 0:
 		return x + 1
 	case 1:
 		return 2*x + 1
+	case 3:
+		return x // every seed is a fixed point: the sequence repeats one value for ever
+	case 4:
+		return min(2*x+1, 31) // saturates: a fixed point after a few steps
+	case 5:
+		return x / 2 // reaches the fixed point 0
 	}
 	return (3*x + 1) % 1000003
 }
@@ -743,6 +781,9 @@ type Twin struct{ A, B *Sys }
 // plan.Twin with its own environment.
 func BuildTwin(e *driver.Env, clause string) *Twin {
 	pa := e.Plan
+	if n := pa.X("crowd"); n > 0 {
+		buildCrowd(e, n)
+	}
 	a := buildStage(e, clause, "", true)
 	pb := pa.Twin
 	pb.SetX("is_twin", 1)
@@ -750,6 +791,36 @@ func BuildTwin(e *driver.Env, clause string) *Twin {
 	b := buildStage(e, clause, "#2", true)
 	e.Plan = pa
 	return &Twin{A: a, B: b}
+}
+
+// buildCrowd parks n unrelated stages (group 3: no oracle looks at them) on
+// inputs that stay open and silent until the run is over: whatever the stages
+// under test share with them process-wide — a budget of goroutines, a registry,
+// a pool — is then used up or populated.
+func buildCrowd(e *driver.Env, n int) {
+	e.S.SpawnGroup = 3
+	defer func() { e.S.SpawnGroup = 0 }()
+	ctx, cancel := context.WithCancel(context.Background())
+	var ins []chan int
+	for i := 0; i < n; i++ {
+		in := make(chan int)
+		ins = append(ins, in)
+		switch i % 3 {
+		case 0:
+			pipe.Void(ctx, in)
+		case 1:
+			pipe.Filter(ctx, in, pipe.Pure(func(int) bool { return true }))
+		default:
+			pipe.Map(ctx, in, pipe.Pure(func(x int) int { return x }))
+		}
+	}
+	e.Probe("crowd_of_parked_stages")
+	e.OnCleanup = append(e.OnCleanup, func() {
+		cancel()
+		for _, in := range ins {
+			close(in)
+		}
+	})
 }
 
 // EachTwin evaluates an oracle written for one stage on both instances.
